@@ -919,7 +919,21 @@ class MPO(MPSGeometry):
         perms = [None] * (self.L + 1)
         for i, w in enumerate(self._W):
             w = w.transpose(['wL', 'wR', 'p', 'p*'])
-            p, w = w.sort_legcharge([True, True, False, False], [True, True, False, False])
+            if i == self.L - 1 and self.bc == 'infinite':
+                # The last `wR` leg is contracted with the first `wL` leg of the next unit cell,
+                # so both need the *same* permutation. Sorting them independently gives different
+                # permutations if the charges change under a shift by one unit cell (e.g. for
+                # dipole conservation), since the shift does not preserve the order of charges.
+                # Hence apply the permutation of the first `wL` leg and only bunch the `wR` leg.
+                if i == 0:
+                    perm_wR = w.sort_legcharge([True, False, False, False], False)[0][0]
+                else:
+                    perm_wR = perms[0]
+                w = w.permute(perm_wR, 'wR')
+                p, w = w.sort_legcharge([True, False, False, False], [True, True, False, False])
+                p = (p[0], perm_wR)
+            else:
+                p, w = w.sort_legcharge([True, True, False, False], [True, True, False, False])
             if perms[i] is not None:
                 assert np.all(p[0] == perms[i])
             perms[i] = p[0]
